@@ -51,6 +51,9 @@ func NewJavaFullListener(nodes map[string]core_domain.CodeDataStruct, file strin
 	classStringQueue = nil
 	classNodeQueue = nil
 	methodQueue = nil
+	mapFields = make(map[string]string)
+	localVars = make(map[string]string)
+	formalParameters = make(map[string]string)
 
 	initClass()
 	return &JavaFullListener{}
